@@ -37,6 +37,7 @@ type Acc struct {
 	SumAbs   float64 // Σ|w·x| (float64 is enough: used only inside tolerances)
 	SumAbsW  float64 // Σ|w|
 	Min, Max float64 // over entries with non-zero weight; NaN when none
+	MaxAbs   float64 // max |x| over entries with non-zero weight
 }
 
 func NewAcc() *Acc {
@@ -59,6 +60,9 @@ func (a *Acc) AddW(x, w float64) {
 	a.SumAbs += math.Abs(w * x)
 	a.SumAbsW += math.Abs(w)
 	if w != 0 {
+		if ax := math.Abs(x); ax > a.MaxAbs {
+			a.MaxAbs = ax
+		}
 		if math.IsNaN(a.Min) || x < a.Min {
 			a.Min = x
 		}
@@ -78,6 +82,9 @@ func (a *Acc) Merge(o *Acc) {
 	a.S2.Add(a.S2, o.S2)
 	a.SumAbs += o.SumAbs
 	a.SumAbsW += o.SumAbsW
+	if o.MaxAbs > a.MaxAbs {
+		a.MaxAbs = o.MaxAbs
+	}
 	if !math.IsNaN(o.Min) && (math.IsNaN(a.Min) || o.Min < a.Min) {
 		a.Min = o.Min
 	}
@@ -138,9 +145,13 @@ func (a *Acc) TolSum() float64 {
 }
 
 // TolMean bounds the absolute error of a mean computed by any stable updating
-// or merging scheme.
+// or merging scheme (m += (x-m)*w/W and its merge form): every step commits a
+// rounding error proportional to |x-m| <= 2*max|x|, so the bound is in terms
+// of the largest magnitude among the values that carry weight, not of the
+// weighted mean magnitude (which can be far smaller when a large value has a
+// small weight).
 func (a *Acc) TolMean() float64 {
-	return a.TolSum() / math.Abs(F(a.W))
+	return tolC*float64(a.N+4)*Eps*a.MaxAbs + math.SmallestNonzeroFloat64
 }
 
 // TolVar bounds the absolute error of the sample variance:
